@@ -4,6 +4,10 @@
 
 package ipv6only
 
+// C19: the configured wait time can be honoured on the wire (option 108 is an unsigned 32-bit
+// number of seconds)
+//@ plugin-invariant[setup4,Handler4,inductive] 0 <= v6only_wait && v6only_wait < 4294967296000000000
+
 //@ func Handler4
 //@   implements handler.Handler4
 //@   modifies everything
